@@ -19,6 +19,60 @@ pub fn check<I: Inputs>(vt: &'static Vt<I>, ctx: &Ctx) -> DeclReport {
         let sanitized = model::sanitize(m, raw.clone());
         let expected = model::validate(m, &sanitized);
         let violated = model::violated(m, &sanitized);
+        // every entry point that hands the constructor's error type back: a rejection through any of them
+        // names the first violated rule too, and never a rule the sanitized value satisfies
+        let entries: Vec<(&str, Result<I, ErrR>)> = {
+            let mut v: Vec<(&str, Result<I, ErrR>)> = vec![];
+            if let Some(f) = vt.try_from {
+                if let Ok(r) = no_panic(|| f(raw.clone())) {
+                    v.push(("TryFrom", r));
+                }
+            }
+            if I::KIND == Kind::Str {
+                if let Some(f) = vt.try_from_str {
+                    if let Ok(r) = no_panic(|| f(raw.as_str_())) {
+                        v.push(("TryFrom<&str>", r));
+                    }
+                }
+                if let Some(f) = vt.from_str_s {
+                    if let Ok(r) = no_panic(|| f(raw.as_str_())) {
+                        v.push(("FromStr", r));
+                    }
+                }
+            } else if let (Some(f), Some(text)) = (vt.from_str, raw.display_()) {
+                // only texts that the inner type parses back to this very value
+                if matches!(I::parse_(&text), Some(Ok(ref back)) if back.same(raw)) {
+                    match no_panic(|| f(&text)) {
+                        Ok(FsOut::Ok(x)) => v.push(("FromStr", Ok(x))),
+                        Ok(FsOut::Validate(e)) => v.push(("FromStr", Err(e))),
+                        _ => {}
+                    }
+                }
+            }
+            v
+        };
+        let names = |e: &ErrR| match e {
+            ErrR::Ix(i) => m.std_vals().get(*i).map(|v| v.kind_name()).unwrap_or("?").to_string(),
+            ErrR::Custom(_) => "custom-payload".to_string(),
+        };
+        for (entry, r) in &entries {
+            if let Err(got) = r {
+                let bad = match &expected {
+                    Ok(_) => Some(("reported-satisfied-rule", "none (valid)".to_string())),
+                    Err(exp) if got != exp => Some((if matches!(got, ErrR::Ix(i) if !violated.contains(i)) { "reported-satisfied-rule" } else { "not-first-violated" }, names(exp))),
+                    _ => None,
+                };
+                if let Some((what, expn)) = bad {
+                    return Outcome::fail(
+                        true,
+                        "entry-point-error",
+                        format!("C07|{}|via-{entry}|{what}|expected={expn}|reported={}|sans={}|vals={}", I::NAME, names(got), san_names(m), val_names(m)),
+                        format!("{} [violated rules {:?}]", match &expected { Ok(_) => "Ok".to_string(), Err(e) => format!("Err({})", e.show()) }, violated),
+                        format!("Err({}) from {entry}", got.show()),
+                    );
+                }
+            }
+        }
         let Err(exp) = expected else {
             return Outcome::ok(false, "accepted");
         };
@@ -28,10 +82,6 @@ pub fn check<I: Inputs>(vt: &'static Vt<I>, ctx: &Ctx) -> DeclReport {
         match no_panic(|| (vt.ctor)(raw.clone())) {
             Ok(Err(got)) if got == exp => Outcome::ok(nontrivial, class).with_note(json!({"violated_rules": violated, "reported": got.show()})),
             Ok(Err(got)) => {
-                let names = |e: &ErrR| match e {
-                    ErrR::Ix(i) => m.std_vals().get(*i).map(|v| v.kind_name()).unwrap_or("?").to_string(),
-                    ErrR::Custom(_) => "custom-payload".to_string(),
-                };
                 let satisfied = match &got {
                     ErrR::Ix(i) => !violated.contains(i),
                     _ => false,
